@@ -86,6 +86,16 @@ def parse_guarded(g, code, **kw):
         sys.settrace(None)
 
 
+def abandon_strict_parse(g):
+    """History: a strict parse that raises inside an indented block drops its token stream mid-way; the following
+    parse must not see any of that state."""
+    import parso
+    try:
+        g.parse('def f(a):\n    if a:\n        b = = 1\n', error_recovery=False)
+    except parso.ParserSyntaxError:
+        pass
+
+
 def _depth():
     f = sys._getframe()
     n = 0
@@ -137,6 +147,7 @@ class C02(Prop):
     def check(self, case):
         code, v = case['code'], case['version']
         g = grammar(v)
+        abandon_strict_parse(g)
         t0 = time.time()
         m, fail = parse_guarded(g, code)
         if time.time() - t0 > SLOW_S and fail is None:
